@@ -377,6 +377,7 @@ def run(ctx):
     run_cyclic(ctx, ctx.budget(50, 1500))
     import e1werr   # E1_cycles: LP of kMinPathErrorCycles == WalkErrEnc.encode_kmpe_cycles (harness/e1werr.py)
     e1werr.run_e1_cycles(ctx, "kMinPathErrorCycles", c07.rand_cyclic_err, ctx.budget(50, 1200), "mpe-cyc-e1")
+    import gencheck_enc; gencheck_enc.run_generated_kmpe(ctx)   # generated-model tie: the kMinPathError encoders regenerated from source (coq/gen_proofs/EncKmpe*.v)
 
 
 def replay(ctx, body):
